@@ -186,14 +186,15 @@ def relTarget (s : St) (mode : String) (i j rid : Nat) : Option (Nat × Nat) :=
     pure (p, q)
 
 def apply (s : St) (f : List String) : Step :=
-  let n := nEntries s.items
+  let _n := nEntries s.items
   match f with
   | ["ins", i, way, t] =>
     let i := natOf i
     match entryOperand s.field.kids s.items way t with
     | .skip => .skip
     | o =>
-      if i > n then .skip else
+      -- beyond the end `insert` appends: executed, not skipped
+      if i > 1000 then .skip else
       match o with
       | .skip => .skip
       | .panic => .panic
